@@ -50,11 +50,11 @@ package otp
 //@   ensures s == fmtdec(val0, digits)
 
 // hmacPools[0..2].new: the three HMAC constructors (function literals of the initialiser)
-//@ func otp.init$3(key) (h)
+//@ func otp.hmacPools$1(key) (h)
 //@   ensures ishmac(h) && hmacalg(h) == 0 && hmackey(h) == view(key) && hmacmsg(h) == "" && fresh(h)
-//@ func otp.init$4(key) (h)
+//@ func otp.hmacPools$2(key) (h)
 //@   ensures ishmac(h) && hmacalg(h) == 1 && hmackey(h) == view(key) && hmacmsg(h) == "" && fresh(h)
-//@ func otp.init$5(key) (h)
+//@ func otp.hmacPools$3(key) (h)
 //@   ensures ishmac(h) && hmacalg(h) == 2 && hmackey(h) == view(key) && hmacmsg(h) == "" && fresh(h)
 
 //@ func otp.deriveRFC4226(secret, counter, digits, algo) (s, err)
@@ -92,7 +92,7 @@ package otp
 //@   ensures[verdict] (ok && err == nil) || (!ok && err != nil)
 
 // TimeCounterFunc's initial value
-//@ func otp.init$6(t, period) (r)
+//@ func otp.TimeCounterFunc$1(t, period) (r)
 //@   requires period != 0
 //@   ensures unixsec(t.wall, t.ext) >= 0 ==> r == unixsec(t.wall, t.ext) / period
 
